@@ -27,8 +27,13 @@ SHAPES = {
     # process-global sys.stdout / sys.stderr meets the next command's alias thread
     "$(A|B);$(A)": ("pipe-then-capture", [([b"a\n"], 0), ("pass", 0)]),
     "$(A|B);$(A);$(A)": ("pipe-then-capture2", [([b"a\n"], 0), ("pass", 0)]),
+    # an alias that closes the stdout it was given (`with stdout:` is enough), or hands its output back
+    # as the return value
+    "$(A)-closes-stdout": ("stdout", [([b"hello\n", "close"], 0)]),
+    "!(A)-closes-stdout-rc3": ("object", [([b"x\ny\n", "close"], 3)]),
+    "$(A)-returns-str": ("stdout", [([b"a\n", ("return", "ret\n")], 0)]),
 }
-QUICK = ["$(A)-two-chunks", "!(A)-two-chunks", "$(A);$(A)", "$(A|B);$(A)"]  # "$(A|B)" is a prefix of the last one
+QUICK = ["$(A)-two-chunks", "!(A)-two-chunks", "$(A);$(A)", "$(A|B);$(A)", "$(A)-closes-stdout"]  # "$(A|B)" is a prefix of the last one
 
 _SHAPE = None
 _XSH = None
@@ -88,8 +93,13 @@ def _mk_alias(s, spec, idx):
     def producer(args, stdin=None, stdout=None, stderr=None):
         for c in chunks:
             s.point()
-            stdout.write(c.decode("latin1"))
-            stdout.flush()
+            if c == "close":
+                stdout.close()
+            elif isinstance(c, tuple):
+                return c[1]  # the output handed back as the return value (code 0)
+            else:
+                stdout.write(c.decode("latin1"))
+                stdout.flush()
         s.point()
         return rc
 
@@ -118,7 +128,7 @@ def _mk_alias(s, spec, idx):
 
 def _expected(shape):
     kind, stages = SHAPES[shape]
-    data = b"".join(stages[0][0])
+    data = b"".join(c if isinstance(c, bytes) else (c[1].encode() if isinstance(c, tuple) else b"") for c in stages[0][0])
     if len(stages) == 2:
         mode = stages[1][0]
         if mode == "pass":
@@ -298,7 +308,7 @@ def run_part(ctx):
         per[name] = st.executions
         ctx.log(f"T2 {name}: {st.executions} schedules, {st.steps} steps, max {st.max_choice_points} choice points, {len(viols)} raw violations")
     pysched.COST_MODE = "preemption"
-    ctx.sample({"tier": "T2", "shape": names[0], "stages": [[c.decode("latin1") if isinstance(c, bytes) else c for c in (st[0] if isinstance(st[0], list) else [st[0]])] for st in SHAPES[names[0]][1]], "preemption_bound": bound})
+    ctx.sample({"tier": "T2", "shape": names[0], "stages": [[c.decode("latin1") if isinstance(c, bytes) else str(c) for c in (st[0] if isinstance(st[0], list) else [st[0]])] for st in SHAPES[names[0]][1]], "preemption_bound": bound})
     return {
         "states": len(total["sigs"]),
         "transitions": total["steps"],
